@@ -81,6 +81,40 @@ def run_ops(engine_kind, init, ops):
         raise ValueError(op)
 
     for op in ops:
+        if op[0] == 'query_i':
+            # a plain enumeration e(..) suspended at its first answer while the predicate is changed, then resumed:
+            # it visits the facts as they were when it started (logical update view)
+            pat, inner = op[1], op[2]
+            out = []
+            try:
+                if engine_kind == 'real':
+                    et = eng.to_engine(pat, {})
+                    g = eng.yp.query('e', list(et._args))
+                    first = True
+                    for _ in g:
+                        out.append(canon((_from_engine(et, {}, 0),)))
+                        if first:
+                            first = False
+                            for io in inner:
+                                simple(io)
+                        if len(out) > 20:
+                            break
+                else:
+                    from ref_interp import resolve
+                    g = eng.solve(pat)
+                    first = True
+                    for b in g:
+                        out.append(canon((resolve(pat, b),)))
+                        if first:
+                            first = False
+                            for io in inner:
+                                simple(io)
+                        if len(out) > 20:
+                            break
+            except Exception as ex:  # noqa
+                out.append(('EXC', type(ex).__name__, str(ex)[:80]))
+            obs.append((out, dump()))
+            continue
         if op[0] == 'retract_i':
             pat, inner = op[1], op[2]
             out = []
@@ -147,6 +181,7 @@ def scenarios(seed, count):
             out.append(dict(init=db, ops=[('retract', p, None)]))
             for io in inner_pool:
                 out.append(dict(init=db, ops=[('retract_i', p, [io])]))
+                out.append(dict(init=db, ops=[('query_i', p, [io])]))
     rng.shuffle(out)
     out = out[:max(0, count * 2 // 3)]
     while len(out) < count:
@@ -155,7 +190,7 @@ def scenarios(seed, count):
         ops = []
         for _ in range(rng.randint(1, 3)):
             if rng.random() < 0.4:
-                ops.append(('retract_i', rng.choice(PATS), [rng.choice(inner_pool) for _ in range(rng.randint(1, 2))]))
+                ops.append((rng.choice(['retract_i', 'query_i']), rng.choice(PATS), [rng.choice(inner_pool) for _ in range(rng.randint(1, 2))]))
             else:
                 ops.append(rng.choice(SIMPLE))
         out.append(dict(init=init, ops=ops))
@@ -183,7 +218,7 @@ def main():
             fails.append(dict(scenario=sc, detail=detail))
     print(json.dumps(dict(evaluations=n, distinct_nontrivial=len(nontriv), failures=fails, failure_count=len(fails), samples=samples,
                           rule='predicate e/2 over {a,b}: systematic part = 5 databases x 7 patterns (incl. e(X,X), e(X,Y)) x {retractall, retract, '
-                               'retract resumed after each of 26 single operations}, shuffled by seed; random part = histories of 1-3 operations; '
+                               'retract / plain enumeration suspended at the first answer and resumed after each of 26 single operations}, shuffled by seed; random part = histories of 1-3 operations; '
                                'answers and database dump after every step vs the reference interpreter; non-trivial = non-empty database')))
 
 
